@@ -140,7 +140,12 @@ class UTPM(Ring, RawAlgorithmsMixIn):
         if isinstance(rhs, UTPM):
             if not isinstance(sl, tuple):
                 sl = (sl,)
-            x_data, y_data = UTPM._broadcast_arrays(self.data.__getitem__((slice(None),slice(None)) + sl), rhs.data)
+            idx = (slice(None),slice(None)) + sl
+            x_data, y_data = UTPM._broadcast_arrays(self.data.__getitem__(idx), rhs.data)
+            if not numpy.may_share_memory(x_data, self.data):
+                # advanced (integer array / boolean mask) index: the selection is a copy,
+                # the values are written through the index itself
+                return self.data.__setitem__(idx, y_data)
             return x_data.__setitem__(Ellipsis, y_data)
         else:
             if not isinstance(sl, tuple):
@@ -294,7 +299,8 @@ class UTPM(Ring, RawAlgorithmsMixIn):
         # the adjoint of the overwritten entries; it is taken out of ybar BEFORE it is
         # accumulated into xbar, because x may be a view of y itself (y[0:2] = y[1:3])
         tmp = ybar[sl].copy()
-        ybar[sl].data[...] = 0.
+        # (through the index: for an advanced index ybar[sl] is a copy)
+        ybar.data[(slice(None),slice(None)) + (sl if isinstance(sl, tuple) else (sl,))] = 0.
         if not isinstance(xbar, UTPM):
             # x is a constant (ndarray): nothing to accumulate
             pass
